@@ -198,7 +198,12 @@ def gen(seed: int, tier: str) -> dict[str, Any]:
     if proto == "udp" and rng.random() < 0.5:
         policy = {"drop": 0.1, "dup": 0.1, "delay": 0.1}
     return {"seed": seed, "tier": "S", "config": {"proto": proto, "exhaustive": exhaustive, "batch": 1,
-                                                   "reconnect_cut": reconnect_cut},
+                                                   "reconnect_cut": reconnect_cut,
+                                                   # the first connection is closed by the client itself and its
+                                                   # connection_lost is reported late (unflushed write buffer) - after the
+                                                   # same transport object has connected again
+                                                   "late_lost": rng.choice([0.005, 0.02]) if reconnect_cut and rng.random() < 0.5
+                                                   else None},
             "items": items, "chunkings": chunkings, "fault_policy": policy}
 
 
@@ -314,13 +319,28 @@ def run(plan: dict[str, Any]) -> dict[str, Any]:
         before = len(net.protocol_escapes)
         await tr.connect()
         await asyncio.sleep(0.05)
-        if peer.conn is not None:
-            peer.conn.server_close(None)
-        await asyncio.sleep(0.05)
-        tr.stop()
+        if cfg.get("late_lost"):
+            net.tcp_close_lag = cfg["late_lost"]
+            tr.stop()
+            net.tcp_close_lag = 0.0
+            R.extra_faults["connection_lost_of_closed_connection_reported_late"] += 1
+        else:
+            if peer.conn is not None:
+                peer.conn.server_close(None)
+            await asyncio.sleep(0.05)
+            tr.stop()
         first_n = len(delivered)
         peer.chunks = [stream]
-        await tr.connect()
+        if cfg.get("late_lost"):
+            # the new stream arrives in two parts, the second one after the late report of the old connection's end
+            h = len(stream) // 2
+            peer.chunks = [stream[:h]]
+            await tr.connect()
+            await asyncio.sleep(0.04)
+            if peer.conn is not None:
+                peer.conn.send_to_client(stream[h:], lat=0.001)
+        else:
+            await tr.connect()
         await asyncio.sleep(0.05)
         tr.stop()
         await asyncio.sleep(0.01)
